@@ -32,7 +32,7 @@ def P3 (Lx Ly Lz : Nat) (x y z : Int) : Prop :=
 def B3 (Lx Ly Lz : Nat) (x y z : Int) : Prop :=
   InAp 2 (Lx - 1) x ∧ InAp 0 (Ly - 1) y ∧ InAp 0 Lz z
 
-theorem ax3 (hx : 3 ≤ Lx) (hy : 4 ≤ Ly) (hz : 5 ≤ Lz) (x y z : Int) :
+theorem ax3 (hx : 3 ≤ Lx) (hy : 4 ≤ Ly) (hz : 4 ≤ Lz) (x y z : Int) :
     (TS Lx Ly Lz 3 x y z ∨ P3 Lx Ly Lz x y z) ↔ B3 Lx Ly Lz x y z := by
   unfold P3 B3
   constructor
@@ -66,7 +66,7 @@ theorem ax3 (hx : 3 ≤ Lx) (hy : 4 ≤ Ly) (hz : 5 ≤ Lz) (x y z : Int) :
         · unfold PT; rw [sgnX_3, sgnY_3, sgnZ_23 (Or.inr rfl), if_neg hc]
           exact ⟨h1, h2, h3, h4, by omega, by omega⟩
 
-theorem ax3_disj (hx : 3 ≤ Lx) (hy : 4 ≤ Ly) (hz : 5 ≤ Lz) (x y z : Int) (ht : TS Lx Ly Lz 3 x y z) (hp : P3 Lx Ly Lz x y z) : False := by
+theorem ax3_disj (hx : 3 ≤ Lx) (hy : 4 ≤ Ly) (hz : 4 ≤ Lz) (x y z : Int) (ht : TS Lx Ly Lz 3 x y z) (hp : P3 Lx Ly Lz x y z) : False := by
   obtain ⟨_, hv, hpt, _⟩ := ht
   unfold PT at hpt
   rw [sgnX_3, sgnY_3, sgnZ_23 (Or.inr rfl)] at hpt
@@ -94,7 +94,7 @@ def P2 (Lx Ly Lz : Nat) (x y z : Int) : Prop :=
 def B2 (Lx Ly Lz : Nat) (x y z : Int) : Prop :=
   InAp 2 (Lx - 1) x ∧ InAp 2 (Ly - 1) y ∧ InAp 0 Lz z
 
-theorem ax2 (hx : 3 ≤ Lx) (hy : 4 ≤ Ly) (hz : 5 ≤ Lz) (x y z : Int) :
+theorem ax2 (hx : 3 ≤ Lx) (hy : 4 ≤ Ly) (hz : 4 ≤ Lz) (x y z : Int) :
     (TS Lx Ly Lz 2 x y z ∨ P2 Lx Ly Lz x y z) ↔ B2 Lx Ly Lz x y z := by
   unfold P2 B2
   constructor
@@ -128,7 +128,7 @@ theorem ax2 (hx : 3 ≤ Lx) (hy : 4 ≤ Ly) (hz : 5 ≤ Lz) (x y z : Int) :
         · unfold PT; rw [sgnX_2, sgnY_2, sgnZ_23 (Or.inl rfl), if_neg hc]
           exact ⟨h1, h2, h3, h4, by omega, by omega⟩
 
-theorem ax2_disj (hx : 3 ≤ Lx) (hy : 4 ≤ Ly) (hz : 5 ≤ Lz) (x y z : Int) (ht : TS Lx Ly Lz 2 x y z) (hp : P2 Lx Ly Lz x y z) : False := by
+theorem ax2_disj (hx : 3 ≤ Lx) (hy : 4 ≤ Ly) (hz : 4 ≤ Lz) (x y z : Int) (ht : TS Lx Ly Lz 2 x y z) (hp : P2 Lx Ly Lz x y z) : False := by
   obtain ⟨_, hv, hpt, _⟩ := ht
   unfold PT at hpt
   rw [sgnX_2, sgnY_2, sgnZ_23 (Or.inl rfl)] at hpt
